@@ -12,6 +12,7 @@ import (
 	"net/http"
 	"os"
 	"path/filepath"
+	"syscall"
 	"time"
 
 	"verif/h"
@@ -44,6 +45,7 @@ type routeCfg struct {
 	BW              string            `json:"bw,omitempty"`
 	BWMode          string            `json:"bw_mode,omitempty"`
 	Group           string            `json:"group,omitempty"`
+	SlowBW          bool              `json:"slow_bw,omitempty"` // limit below the copy-buffer size: only used by the small-body cases
 	BackendPort     int               `json:"backend_port"`
 	Backends        []int             `json:"backends"` // ids of the backends that may legitimately answer
 }
@@ -175,9 +177,6 @@ func buildTopology(nCfg int) error {
 		}
 		rc.Enc = rng.Intn(2) == 0
 		rc.Comp = rng.Intn(2) == 0
-		if os.Getenv("C02_NOCOMP") != "" && rc.viaHTTPS() {
-			rc.Comp = false
-		}
 		switch rng.Intn(4) {
 		case 0:
 			rc.BW, rc.BWMode = "16MB", "client"
@@ -200,6 +199,21 @@ func buildTopology(nCfg int) error {
 		if i == 13 {
 			rc.Kind, rc.Group = "http", "g13"
 			rc.PlugRewriteHost, rc.PlugReqSet = "", nil
+		}
+		// two routes whose bandwidth limit (and so the limiter's burst) is smaller than the 32 KiB copy buffers:
+		// every larger write / read has to be split by the limiter
+		if i == 14 || i == 15 {
+			rc.Kind, rc.SlowBW, rc.BW = "http", true, "24KB"
+			rc.BWMode = []string{"server", "client"}[i-14]
+			rc.Srv = i % 2
+			rc.Cli = rc.Srv*nCli + rng.Intn(nCli)
+			rc.PlugRewriteHost, rc.PlugReqSet = "", nil
+		}
+		if rc.Dead {
+			// hold the port without listening: connections are refused and no other process can take it
+			if err := holdPort(rc.BackendPort); err != nil {
+				return fmt.Errorf("hold dead port: %w", err)
+			}
 		}
 		if !rc.Dead {
 			var tc *tls.Config
@@ -334,4 +348,20 @@ func closeTopology() {
 	for _, s := range topo.Servers {
 		s.S.Close()
 	}
+}
+
+var heldFDs []int
+
+// holdPort binds 127.0.0.1:port on a socket that never listens (connect => ECONNREFUSED).
+func holdPort(port int) error {
+	fd, err := syscall.Socket(syscall.AF_INET, syscall.SOCK_STREAM, 0)
+	if err != nil {
+		return err
+	}
+	if err := syscall.Bind(fd, &syscall.SockaddrInet4{Port: port, Addr: [4]byte{127, 0, 0, 1}}); err != nil {
+		syscall.Close(fd)
+		return err
+	}
+	heldFDs = append(heldFDs, fd)
+	return nil
 }
